@@ -3,6 +3,7 @@
 #include <memory>
 #include <deque>
 #include "../common/verif.h"
+#include "../common/adapters.h"
 #include "btdmp.h"
 #include "crash.h"
 
@@ -157,27 +158,17 @@ struct Engine {
         dev.SetInterruptHandler([this]() { ++obs.irq; });
         if (with_callback) // without a listener (the second port of a Teakra never has one) frames are unobservable, everything else is not
             dev.SetAudioCallback([this](std::array<std::int16_t, 2> fr) { obs.frames.push_back(fr); });
-        dev.transmit_clock_config = 0;
-        dev.transmit_period = f.b.period;
-        dev.transmit_timer = f.b.timer;
-        dev.transmit_enable = f.b.enable;
-        dev.transmit_empty = f.b.empty != 0;
-        dev.transmit_full = f.b.full != 0;
-        dev.transmit_queue = std::queue<u16>(f.q);
+        verif_adapt::BtdmpView v;
+        v.clock_config = 0, v.period = f.b.period, v.timer = f.b.timer, v.enable = f.b.enable, v.empty = f.b.empty != 0, v.full = f.b.full != 0;
+        v.queue = f.q;
+        verif_adapt::WriteBtdmp(dev, v);
         obs = Obs();
     }
     Full Save() {
         Full f;
-        f.b.period = dev.transmit_period;
-        f.b.timer = dev.transmit_timer;
-        f.b.enable = dev.transmit_enable;
-        f.b.empty = dev.transmit_empty;
-        f.b.full = dev.transmit_full;
-        auto q = dev.transmit_queue;
-        while (!q.empty()) {
-            f.q.push_back(q.front());
-            q.pop();
-        }
+        const verif_adapt::BtdmpView v = verif_adapt::ReadBtdmp(dev);
+        f.b.period = v.period, f.b.timer = v.timer, f.b.enable = v.enable, f.b.empty = v.empty, f.b.full = v.full;
+        f.q = v.queue;
         f.b.size = (u16)f.q.size();
         return f;
     }
@@ -221,6 +212,10 @@ struct Engine {
             ev.push_back({EvSkip, k});
         if (h != ~0ull && h > lim)
             ev.push_back({EvSkip, h});
+        if (h == ~0ull) // nothing bounds the skip (e.g. an enabled port with an empty queue sends silence): many frames in one skip
+            for (u64 k : {(u64)(9 * s.period - s.timer), (u64)(9 * s.period), (u64)(17 * s.period + 1), (u64)(40 * s.period)})
+                if (k > lim)
+                    ev.push_back({EvSkip, k});
         return ev;
     }
 
@@ -424,7 +419,7 @@ inline void Run(const Args& args, Result& res) {
     res.rule =
         "BFS to fixpoint over a real Teakra::Btdmp per (period, value labelling); state = period, frame "
         "clock, enable, empty/full flags, queue (consecutive sequence numbers, relabelled to start at "
-        "base); events Tick, Send(next), Flush, Enable(0/1), Skip(k) for every k<=min(horizon,2*period+1) "
+        "base); events Tick, Send(next), Flush, Enable(0/1), Skip(k) for every k<=min(horizon,2*period+1) (and, where the horizon is unbounded, skips of 9, 17 and 40 periods) "
         "and k=horizon; every transition compared with the reference FIFO/frame-clock model (frames, "
         "flags, interrupt count, queue content) and Skip(k) with k real Ticks; the port behind CoreTiming (Skip(budget) vs that many Ticks); non-trivial = transition "
         "that changes state or emits a frame/interrupt";
